@@ -228,6 +228,12 @@ def make_items(rng, n):
         g = gencalls.G(rng)
         if kind in TRANSFORMS:
             c = gencalls.gen_call(rng)
+            if getattr(c, "out_perm", None) is not None:
+                # the transformations below rewrite the target and its output expression together: start from the plain form
+                c.outs = [[x.copy() for x in c.ins[0]]]
+                c.out_perm = None
+                c.desc = None
+                c.describe(rng)
             t = TRANSFORMS[kind](c, rng)
             if t is None:
                 continue
